@@ -654,6 +654,11 @@ def run_client(case):
                     peer.h2.reset_stream(sid)
                     entries.append(('R', c))
                 flush(entries)
+            elif what == 'dataend':
+                # the response ends on a DATA frame, no trailers at all: END_STREAM is all h2 sees
+                run.op('t:%d:0' % c, '-')
+                peer.h2.send_data(sid, P.grpc_frame(b'r'), end_stream=True)
+                flush([('E', c)])
             elif what == 'rst':
                 run.op('r:%d' % c, '-')
                 peer.h2.reset_stream(sid)
